@@ -287,6 +287,58 @@ def hist_work(shard, tier, viols, counters, samples, keys):
                     i, s['module'], s['func'], s['args'], observed[i], want),
                 {'kind': 'hist', 'history': [{k2: h[k2] for k2 in ('module', 'func', 'args')} for h in hist[:i + 1]], 'index': i,
                  'shard': shard['name'], 'seed': C.SEED})
+    # dense histories of single modules: every public function on every spelling of a few numbers, under the default
+    # and under every documented option value, the calls on one number next to one another (a memo of the last call,
+    # a list reordered by the last match, a default that sticks) and then once more in random order
+    cores = [m for m in core if m in names]
+    dense_mods = [cores[i % len(cores)] for i in (shard['part'], shard['part'] + 10, shard['part'] + 20)] + share[:1 if tier == 'quick' else 6]
+    mods = C.number_modules()
+    for name in dict.fromkeys(dense_mods):
+        mod = mods[name]
+        fns = calls.public_functions(mod)
+        nums = C.corpus(name, limit=3 if tier == 'quick' else 8, rng=rng)
+        spell = []
+        for v in nums:
+            spell += [v, ''.join(ch for ch in v if ch.isalnum())]
+            if hasattr(mod, 'format'):
+                o = C.outcome(mod.format, v)
+                if o[0] == 'ok' and isinstance(o[1], str):
+                    spell.append(o[1])
+        spell = list(dict.fromkeys(spell))[:8 if tier == 'quick' else 24]
+        dense = []
+        for a in spell:
+            for fname, f in sorted(fns.items()):
+                optsets = [{}] + [o for o in C.option_values(name, f) if o][:6]
+                for o in optsets:
+                    if all(isinstance(x, (str, int, bool, type(None))) for x in o.values()):
+                        dense.append({'module': name, 'func': fname, 'args': [a], 'kwargs': o})
+        if len(dense) > (250 if tier == 'quick' else 2000):
+            dense = dense[:250 if tier == 'quick' else 2000]
+        seq = [dict(d) for d in dense] + [dict(d) for d in rng.sample(dense, len(dense))]
+        uniq2 = {}
+        obs = []
+        for d in seq:
+            o, _raw = calls.run_call(d)
+            obs.append(o)
+            evals += 1
+            uniq2.setdefault(json.dumps([d['module'], d['func'], d['args'], d.get('kwargs', {})], sort_keys=True), d)
+        ref2 = oracle([dict(d, id=k) for k, d in uniq2.items()], '0')
+        evals += len(uniq2)
+        counters['dense_history_calls'] = counters.get('dense_history_calls', 0) + len(seq)
+        counters['oracle_calls'] += len(uniq2)
+        for i, d in enumerate(seq):
+            k = json.dumps([d['module'], d['func'], d['args'], d.get('kwargs', {})], sort_keys=True)
+            want = ref2.get(k)
+            if want is None or (want and want[0] == 'harness-error'):
+                counters['oracle_errors'] += 1
+                continue
+            keys.add(k)
+            if obs[i] != want:
+                add(viols, 'C13|%s.%s|differs-from-pristine-process' % (d['module'], d['func']),
+                    'call #%d of a dense history: %s.%s(%r, **%r) gave %r but %r alone in a fresh interpreter' % (
+                        i, d['module'], d['func'], d['args'], d.get('kwargs', {}), obs[i], want),
+                    {'kind': 'hist', 'history': [{k2: h[k2] for k2 in ('module', 'func', 'args', 'kwargs')} for h in seq[:i + 1]], 'index': i,
+                     'shard': shard['name'], 'seed': C.SEED})
     counters['history_calls'] += len(hist)
     counters['oracle_calls'] += len(ulist)
     if hist:
